@@ -141,7 +141,7 @@ CHECKS = {
          'for all well-typed operand patterns inside the bound and compared, cell by cell and for all element values, with the same torch operation applied to the independently denoted dense tensors; '
          'the representation invariant (at most one physical element per virtual element) is asserted on every PatternedTensor the library constructs. Right level: pattern x default x value corner '
          'combinations are far beyond hand-written cases; the solver quantifies values, the typed enumeration covers structure.',
-    note='Bounds: shapes up to rank 2 / numel 6 (quick), rank 3 / numel 8 (thorough); index types of depth 1; <=3 physical axes; single operations plus two-step compositions (14 structural/unary first operations x 21 second operations on numeric tensors: every sixth in quick, all in thorough). '
+    note='Bounds: shapes up to rank 2 / numel 6 (quick), rank 3 / numel 8 (thorough); index types of depth 1; <=3 physical axes; single operations plus two-step compositions (14 structural/unary first operations x 21 second operations on numeric tensors: every sixth in quick, every second in thorough). '
          'Outside the claim: in-place operations on a receiver whose physical tensor is a stride-0 expansion (torch refuses such writes too), stack of tensors whose common default is nan, negative dim for dim_to_dense. '
          'Known finding F6 (log_softmax with infinite default) is confined by its signature.',
     technique='SMT equivalence of patterned vs dense execution (z3), representation-invariant monitor', design='5/C06'),
